@@ -1,10 +1,8 @@
 #!/bin/bash
 # Runs every seeded change against the check(s) expected to catch it (scratch worktrees); feed the output to tools/seedmatrix.py.
 cd /verif
-while read -r line; do
-  [ -z "$line" ] && continue
-  tools/seedrun.sh $line 2>&1 | head -3 | cut -c1-400
-done <<'L'
+OUT=${SEEDMATRIX_OUT:-/tmp/seedmatrix}; rm -rf $OUT; mkdir -p $OUT
+grep -v '^$' <<'L' | xargs -P ${SEEDMATRIX_JOBS:-4} -I{} sh -c 'cd /verif && tools/seedrun.sh {} 2>&1 | head -3 | cut -c1-400 > "$0/$(echo {} | tr " /:" "___").txt"' $OUT
 C01-1 C01 --only rangeValCopy
 C01-2 C01 --only badRegexp
 C02-1 C03 --only typeDefFirst
@@ -24,17 +22,17 @@ C07-2 C07 --only commentFormatting
 C08-1 C06 --only Filter
 C08-1 C08
 C08-2 C08 --only TestVariants
-C09-1 C09 --only gsxC09
+C09-1 C09 --only rule:unslice
 C09-2 C09 --only RuleFix
 C10-1 C10
-C10-2 C10
+C10-2 C10 --only rule:assignOp
 C11-1 C11
 C11-2 C11
-C12-1 C12
+C12-1 C12 --only rule:offBy1
 C12-2 C12
 C13-1 C13 --only commentedOutCode
 C13-2 C13 --only ifElseChain
-C14-1 C14 --only hugeParam
+C14-1 C14 --only SizeOf
 C14-2 C14 --only nestingReduce
 C15-1 C15
 C15-2 C15
@@ -46,6 +44,22 @@ C18-1 C18
 C18-2 C18
 C19-1 C19
 C19-2 C19
-C20-1 C20
+C20-1 C20 --only rule:flagDeref
 C20-2 C20 --only flagName
+C01-3 C01 --only underef
+C02-3 C14 --only SizeOf
+C02-3 C05 --only C05SizeOf
+C02-3 C02 --only hugeParam
+C03-3 C03 --only RuleRunContext
+C05-3 C05 --only C05SizeOf
+C07-3 C07 --only mapKey
+C09-3 C09 --only ParamCombine
+C10-3 C10 --only Namesake
+C12-3 C12 --only CaseOrder
+C13-3 C14 --only SizeOf
+C13-3 C13 --only rangeValCopy
+C14-3 C14 --only AnalyzerParam
+C16-3 C16
+C20-3 C20 --only C20ExitAfterDefer
 L
+cat $OUT/*.txt
